@@ -4373,7 +4373,10 @@ class ParseCtx:
 
         # Parse main
         parser_decl = next(self._parse_tree.find_data("parser_decl"))
-        self.ast = self._parse_stmt_seq(parser_decl.children)
+        try:
+            self.ast = self._parse_stmt_seq(parser_decl.children)
+        except RecursionError:
+            raise IllegalParseTree("Statements nested too deeply (macros cannot recurse)", parser_decl)
 
         if isinstance(self.ast, ActionSourceNode):
             self.start_actions, self.ast = self.ast.adopt_actions_from()
